@@ -414,10 +414,11 @@ def parse(exprs):
     return [sympy.sympify(e, locals=loc) for e in exprs]
 
 
-def run_case(case):
-    """Returns (ok, detail).  The predicate is the property text instantiated at the case."""
+def run_case(case, cs=None):
+    """Returns (ok, detail).  The predicate is the property text instantiated at the case.  `cs`: an existing
+    CoordinateSystem object to build the field on (history stream); default a fresh one."""
     A = impl()[0]
-    cs = cart_cs()
+    cs = cs if cs is not None else cart_cs()
     kind = case["kind"]
     F = parse(case["field"])
     path = case.get("path", "lambda")
@@ -685,6 +686,42 @@ def value_list_probe():
         "limits": [["0", "1"], ["0", S(2 * pi)]], "boundary": circle_boundary(1, 1)}]
 
 
+def history_sequence(rng, n):
+    """Many different fields created and dropped one after the other on ONE shared CoordinateSystem object, the
+    operators interleaved (circulation_along_curve / circulation_along_surface_boundary, flux_across_curve /
+    flux_across_surface_boundary, flux_across_surface / flux_across_volume_boundary)."""
+    seq = []
+    for i in range(n):
+        a_, b_ = rng.choice([1, 2, 3, -1, -2]), rng.choice([1, 2, 3, -1])
+        if i % 4 == 2:
+            x0, x1, y0, y1 = rng.choice([(0, 1, 0, 2), (-1, 1, 0, 1)])
+            seq.append({"kind": "green", "field": [S(e) for e in rand_field(rng, 2)], "boundary": rect_boundary(x0, x1, y0, y1),
+                "region": {"type": "base_scalars", "xlimits": [S(x0), S(x1)], "ylimits": [S(y0), S(y1)]}})
+        elif i % 8 == 5:
+            seq.append({"kind": "gauss", "field": [S(e) for e in rand_field(rng, 3)], "box": [["0", "1"], ["-1", "1"], ["0", "2"]]})
+        else:
+            f = [S(-a_ * COEF[0] * Y + rand_mono(rng, [X, Y], 1)), S(b_ * COEF[1] * X + rng.choice([1, 2, -1]) * X * Y), S(Z + rand_mono(rng, [X, Z], 1))]
+            zc = rng.choice([None, None, U**2])
+            surf = [U * cos(V), U * sin(V)] + ([zc] if zc is not None else [])
+            seq.append({"kind": "stokes", "field": f, "surface": [S(e) for e in surf], "limits": [["0", "1"], ["0", S(2 * pi)]],
+                "boundary": circle_boundary(1, 1, None if zc is None else sympy.Integer(1))})
+        seq[-1]["path"] = FPATHS[i % len(FPATHS)]
+    return seq
+
+
+def run_history(seq):
+    """Returns None if every step agrees, else (index, detail)."""
+    cs = cart_cs()      # ONE coordinate-system object for the whole sequence
+    for i, c in enumerate(seq):
+        try:
+            okc, detail = run_case(c, cs)
+        except Exception as e:  # pylint: disable=broad-except
+            okc, detail = False, {"exception": f"{type(e).__name__}: {e}"}
+        if not okc:
+            return i, detail
+    return None
+
+
 def report_case(ctx, c, detail, key=None):
     ctx.violation(key or f"C13:e2e:{c['kind']}:{c['field']}:{c.get('surface', c.get('trajectory', c.get('box', '')))}",
         f"the two computation paths disagree / leave coordinate variables ({c['kind']}) on field {c['field']} "
@@ -746,6 +783,22 @@ def run(ctx):
         ctx.sample({"e2e_case": cases[0]})
     ctx.log(f"end-to-end: {n_ok}/{len(cases)} agree")
 
+    # 2a. history: many fields created and dropped on one shared coordinate-system object, operators interleaved
+    seq = history_sequence(ctx.rng, ctx.pick(24, 90))
+    hres = run_history(seq)
+    ctx.evaluated(len(seq), len({str(c["field"]) for c in seq}))
+    ctx.coverage["history_steps"] = len(seq)
+    if hres is not None:
+        i, detail = hres
+        ctx.violation(f"C13:history:step{i}:{seq[i]['kind']}:{seq[i]['field']}",
+            f"after {i} other fields were created and dropped on the same CoordinateSystem object, the two computation paths "
+            f"disagree ({seq[i]['kind']}) on field {seq[i]['field']}: {detail}",
+            {"kind": "history", "item": seq[i]["kind"], "input": {"sequence": seq[:i + 1]}, "observed": detail,
+                "failing_step": i, "expected": "every step of the sequence: equal results on both paths, free of coordinate variables",
+                "theorem_or_tie": "end-to-end agreement along a history on one shared coordinate system"}, found_input=True)
+        bad_funcs.update(FUNCS_OF_KIND[seq[i]["kind"]])
+    ctx.log(f"history: {len(seq)} steps on one shared coordinate system, {'all agree' if hres is None else 'step %d fails' % hres[0]}")
+
     # 2b. probe: value list of expressions in the base scalars
     for c in value_list_probe():
         try:
@@ -791,6 +844,15 @@ def run(ctx):
 
 
 def replay(ctx, rep):
+    if rep.get("kind") == "history":
+        seq = rep["input"]["sequence"]
+        hres = run_history(seq)
+        print(f"replay history of {len(seq)} steps on one shared CoordinateSystem object; fields: {[c['field'] for c in seq]}")
+        if hres is None:
+            print("every step agrees now")
+            return 0
+        print(f"step {hres[0]} ({seq[hres[0]]['kind']} on {seq[hres[0]]['field']}) still fails: {hres[1]}")
+        return 1
     if rep.get("kind") == "e2e":
         c = rep["input"]
         okc, detail = run_case(c)
